@@ -763,3 +763,67 @@ func lemmaDestSSRCStable(ps []Packet) (same bool, err, err2 error) {
 	}
 	return true, nil, nil
 }
+
+// ---- RFC 4585 section 6.2.1 generic NACK (C12), executable form ----
+
+// specNackList: the packet ID followed by ID+i+1 (mod 65536) for each set bit i of the bitmap, ascending i.
+func specNackList(p NackPair) []uint16 {
+	out := []uint16{p.PacketID}
+	for i := uint16(0); i < 16; i++ {
+		if uint16(p.LostPackets)>>i&1 == 1 {
+			out = append(out, p.PacketID+i+1)
+		}
+	}
+	return out
+}
+
+// lemmaNackRange (C12): Range visits specNackList in order and stops right after the callback's first false;
+// PacketList is the whole list.
+func lemmaNackRange(p NackPair, stopAt int) (visited []uint16, list []uint16) {
+	n := 0
+	p.Range(func(seq uint16) bool {
+		visited = append(visited, seq)
+		n++
+		return n <= stopAt
+	})
+	return visited, p.PacketList()
+}
+
+func specNackPrefix(p NackPair, stopAt int) []uint16 {
+	l := specNackList(p)
+	if stopAt+1 < len(l) {
+		if stopAt < 0 {
+			return l[:1]
+		}
+		return l[:stopAt+1]
+	}
+	return l
+}
+
+// specNackCovers: the pairs cover exactly the set of the given sequence numbers.
+func specNackCovers(pairs []NackPair, seqs []uint16) bool {
+	want := map[uint16]bool{}
+	for _, s := range seqs {
+		want[s] = true
+	}
+	got := map[uint16]bool{}
+	for _, p := range pairs {
+		for _, s := range specNackList(p) {
+			got[s] = true
+		}
+	}
+	if len(want) != len(got) {
+		return false
+	}
+	for s := range want {
+		if !got[s] {
+			return false
+		}
+	}
+	return true
+}
+
+// lemmaNackPairs (C12): NackPairsFromSequenceNumbers covers exactly the requested set.
+func lemmaNackPairs(seqs []uint16) (pairs []NackPair) { return NackPairsFromSequenceNumbers(seqs) }
+
+func seqEqU16s(a, b []uint16) bool { return seqEq(a, b) }
